@@ -13,7 +13,8 @@ Theorems about one iteration of `forward_message`'s recipient loop (`deliverOne`
 state, frame, writable set, set of failing sockets and every nested forward `fwd`.
 
 Refinement link, partial (the counted lower bound of `checkDepartures` — an undeliverable CLIENT_CLOSED is owed a notice —
-is not linked): `spec_guard_clause_passes_on_model` (no notice about a notice, every history),
+is proved at model level only: `departure_notices_counted_partial`, `nested_departure_notices_counted_partial`):
+`spec_guard_clause_passes_on_model` (no notice about a notice, every history),
 `spec_data_clauses_pass_on_model` (`Spec.checkData`, its counted C14 clause included, returns its argument on the events
 of every data frame read in a simulated state; model-level core: `undeliverable_reported_counted`),
 `spec_notice_origin_clause_passes_on_model` (the clause `Spec.checkNoticeOrigin` — a notice is never invented — returns
